@@ -202,7 +202,7 @@ func (comp) Gen(p string, rng *rand.Rand, tier string) *core.History {
 	pkind := core.Pick(rng, []int{0, 0, 0, 0, 0, 0, 0, 0, 0, 0, 0, 0, 0, 0, 0, 0, 1, 1, 2, 0})
 	maxBatch := 1 + rng.Intn(capacity)
 	nk := 3 + rng.Intn(3)
-	keys := allKeys[:nk]
+	keys := core.WithLongKeys(rng, allKeys[:nk], 12)
 	nv := 2 + rng.Intn(3)
 	values := append([][]byte{}, smallValues[:nv]...)
 	if kind == 1 && core.Chance(rng, 1, 2) {
@@ -215,7 +215,7 @@ func (comp) Gen(p string, rng *rand.Rand, tier string) *core.History {
 
 	failEvery := core.Pick(rng, []int{4, 6, 6, 8, 12, 1000})
 	bit := func() bool { return core.Chance(rng, 1, failEvery) }
-	nops := 12 + rng.Intn(19)
+	nops := core.LongHistory(rng, 12+rng.Intn(19))
 	// life-cycle operations (RangeKeys, DestroyUnit, Close) in 2 histories out of 5. A SUCCESSFUL Close /
 	// DestroyUnit in the middle of a history only over memorydb (Close does nothing, Destroy leaves an
 	// empty usable map; a closed LevelDB is C09's subject); over LevelDB they are made to fail (the stub
